@@ -121,6 +121,7 @@ def check(ctx):
     E2.esc_members(ctx, 'ESC-MAKE', E.MAKE_SYN, table, {'MK_VARVALUE'},
                    only_members={'clean'})
     c01.esc_make_extra(ctx, table)
+    c01.var_producers(ctx, table)
     path_roles = [r for r in E2.MAKE_ROLES + E2.DEPFILE_ROLES
                   if set(r[1]) & {'target', 'dependency'}]
     E2.position_rule(ctx, 'SYNTAX-POSITION', sites, path_roles, 'make')
